@@ -6,16 +6,17 @@ BUFS = [1, 16, 64, 288, 4096, 8192, 8192, 1 << 20]
 
 BASE = {
     # initial state
-    "init": {"new": 5, "foreign": 3, "foreign_garbage": 2, "foreign_hole": 0.0, "foreign_noncompact": 0.0,
+    "init": {"new": 5, "foreign": 3, "foreign_garbage": 2, "foreign_hole": 0.25, "foreign_noncompact": 0.4,
              "capture": 0.03},
     "n_choices": [14, 14, 1, 2, 3, 5, 9],
     "files": [1, 1, 1, 2],
     # sessions
-    "session": {"w": 10, "ro": 0.6, "out": 0.3, "armed_out": 0.2, "stale": 0.3},
+    "session": {"w": 10, "fresh": 1.5, "ro": 0.6, "out": 0.3, "armed_out": 0.2, "stale": 0.3},
     "end": {"exit": 8, "exit_exc": 1, "kill": 1},
     "ops": {"add": 10, "remove": 6, "replace": 4, "set": 3, "reput": 1, "edit_restore": 1, "read_obs": 1, "read_w": 1,
+            "read_twice": 0.3,
             "reject_all": 0.0, "mode_matrix": 0.0, "decode_twice": 0.3, "copy": 0.2},
-    "between": {"scribble": 0.0, "read_obs": 0.3, "clobber": 0.05, "open_bad": 0.03, "copy": 0.1},
+    "between": {"scribble": 0.0, "read_obs": 0.3, "clobber": 0.05, "open_bad": 0.03, "copy": 0.1, "sig_flip": 0.02},
     "kinds": gen.KINDS,
     "opaque": 0.5,  # probability that a foreign file carries opaque blocks
     "big": 0.02,
@@ -43,20 +44,23 @@ def profile(prop):
     elif prop == "C01":
         p["ops"].update(reput=3, replace=5, set=4, edit_restore=4)
         p["big"] = 0.05
+        p["huge_cell"] = 0.1
     elif prop == "C02":
         p["big"] = 0.05
         p["init"].update(capture=0.12)
         p["ops"].update(edit_restore=4)
+        p["huge_cell"] = 0.1
         p["ops"].update(read_w=2)
     elif prop == "C05":
         p["kinds"] = list(gen.SEGMENTED)
         p["ops"].update(decode_twice=6, add=8, replace=6, set=4, remove=3, edit_restore=6)
         p["gap_heavy"] = True
-        p["init"] = {"new": 6, "foreign": 3, "foreign_garbage": 1, "foreign_hole": 0, "foreign_noncompact": 0,
+        p["init"] = {"new": 6, "foreign": 3, "foreign_garbage": 1, "foreign_hole": 0.1, "foreign_noncompact": 0.2,
                      "capture": 0.03}
     elif prop == "C06":
         p["init"].update(foreign=4, foreign_garbage=4, capture=0.12)
         p["ops"].update(reput=2, edit_restore=2)
+        p["huge_cell"] = 0.06
     elif prop == "C07":
         p["ops"].update(reject_all=5, add=8, remove=4)
         p["n_choices"] = [14, 14, 2, 3, 5, 9]
@@ -64,9 +68,11 @@ def profile(prop):
         p["dup_add"] = 0.15
         p["absent_rm"] = 0.12
     elif prop == "C08":
-        p["session"] = {"w": 5, "ro": 3, "out": 3, "armed_out": 3, "stale": 3}
+        p["session"] = {"w": 5, "fresh": 1, "ro": 3, "out": 3, "armed_out": 3, "stale": 3}
         p["end"] = {"exit": 5, "exit_exc": 4, "kill": 0.5}
-        p["ops"].update(mode_matrix=6, read_w=3, read_obs=1)
+        p["ops"].update(mode_matrix=6, read_w=3, read_obs=1, copy=1.5)
+        p["between"].update(copy=0.5)
+        p["files"] = [1, 2, 2]
         p["len"] = (6, 20)
     elif prop == "C10":
         p["end"] = {"exit": 6, "exit_exc": 1, "kill": 4}
@@ -79,9 +85,12 @@ def profile(prop):
         p["between"].update(scribble=3)
         p["init"].update(foreign_garbage=5, capture=0.12)
         p["ops"].update(reput=3)
+    elif prop == "C20":
+        p["ops"].update(read_twice=8, add=8, remove=3, replace=3, set=3, read_obs=0.5, read_w=0.5)
+        p["session"] = {"w": 6, "fresh": 0.5, "ro": 4, "out": 0.2, "armed_out": 0.1, "stale": 0.2}
     elif prop == "C17":
         p["files"] = [2, 3, 3]
-        p["between"].update(clobber=2, open_bad=1, copy=2)
+        p["between"].update(clobber=2, open_bad=1, copy=2, sig_flip=1)
         p["ops"].update(copy=2)
         p["len"] = (6, 20)
     return p
@@ -132,6 +141,10 @@ class Gen:
         self.hole = {}
         self.exists = {}
 
+    def dt(self):
+        """dtype / container of the arrays the user hands over (see adapters._as)."""
+        return self.rng.choice((False, False, False, False, True, True, "be", "be64", "ma"))
+
     def emit(self, **op):
         op["clock"] = clock_step(self.rng)
         self.ops.append(op)
@@ -167,7 +180,8 @@ class Gen:
             n = rng.randint(20000, 70000)
             m = "1" * n if rng.random() < 0.5 else "1" * (n // 3) + "0" * 7 + "1" * (n - n // 3 - 7)
             return gen.block(rng, kind, masks=[m], fmix="ordinary")
-        return gen.block(rng, kind, big=rng.random() < self.p["big"], min_items=min_items, masks=masks)
+        return gen.block(rng, kind, big=rng.random() < self.p["big"], min_items=min_items, masks=masks,
+                         huge_cell=(kind == "data2d" and rng.random() < self.p.get("huge_cell", 0.02)))
 
     def init_file(self, f):
         rng = self.rng
@@ -225,7 +239,7 @@ class Gen:
             else:
                 C = self.block(exclude=set(pres))
             code = gen.code_of(C)
-            self.emit(op="add", f=f, C=C, comment=gen.comment(rng), f64=rng.random() < 0.25)
+            self.emit(op="add", f=f, C=C, comment=gen.comment(rng), f64=self.dt())
             if code not in pres and free > 0:
                 pres[code] = True
         elif kind == "remove":
@@ -241,12 +255,12 @@ class Gen:
                 C = self.block(only=dec)
             else:
                 C = self.block(exclude=set(pres))
-            self.emit(op="replace", f=f, C=C, comment=gen.comment(rng), f64=rng.random() < 0.25)
+            self.emit(op="replace", f=f, C=C, comment=gen.comment(rng), f64=self.dt())
         elif kind == "set":
             kinds = [k for k in ("data3d", "emg", "events", "ft", "fpdata") if k in self.p["kinds"]]
             C = self.block(kinds=kinds)
             code = gen.code_of(C)
-            self.emit(op="set", f=f, C=C, f64=rng.random() < 0.25)
+            self.emit(op="set", f=f, C=C, f64=self.dt())
             if code not in pres and free > 0:
                 pres[code] = True
         elif kind == "reput":
@@ -281,6 +295,8 @@ class Gen:
             self.emit(op="reject_all", f=f, bases=bases)
         elif k == "mode_matrix":
             self.emit_matrix(f)
+        elif k == "read_twice":
+            self.emit(op="read_twice", f=f, k=rng.randint(0, 9))
         elif k == "decode_twice":
             ps = rng.sample(seams.POISONS[:4], 2)
             self.emit(op="decode_twice", f=f, poisons=ps)
@@ -320,7 +336,7 @@ class Gen:
                 continue
             if k == "scribble":
                 regs = rng.choice((["header", "entry", "block"], ["block"], ["entry"], ["header", "entry"]))
-                self.emit(op="scribble", f=f, regions=regs, pattern=rng.choice(("random", "ff", "text", "random")),
+                self.emit(op="scribble", f=f, regions=regs, pattern=rng.choice(("random", "ff", "text", "random", "smallint")),
                           seed=rng.randint(1, 10**6))
             elif k == "read_obs":
                 self.emit(op="read", f=f, who="observer", ctx=rng.random() < 0.6, what=self.some_readers())
@@ -345,6 +361,9 @@ class Gen:
                 self.emit(op="open_bad", f=g)
             elif k == "copy":
                 self.copy_op(f)
+            elif k == "sig_flip":
+                self.emit(op="sig_flip", f=f, how=rng.choice(("byte", "zero_sig", "zero_all")), k=rng.randint(0, 15),
+                          via=rng.choice(("ctx", "ctx", "implicit")))
 
     def run(self):
         rng = self.rng
@@ -374,14 +393,25 @@ class Gen:
                 self.emit(op="allow_write", f=f)
             in_ctx = kind in ("w", "ro", "stale")
             nops = rng.choice((1, 1, 2, 2, 3, 4, 6))
-            if kind == "w":
+            if kind == "fresh":
+                # one-shot `with Tdf(path).allow_write() as t:` sessions through a fresh object
+                for _ in range(min(nops, 3)):
+                    n0 = len(self.ops)
+                    self.mutation(f, rng.choice(("add", "remove", "replace", "set")))
+                    for o in self.ops[n0:]:
+                        o["fresh"] = True
+            elif kind == "w":
                 for _ in range(nops):
                     self.session_op(f, True)
             else:
                 # wrong-mode sessions: the calls a user would make, all of which must be refused
+                if kind in ("ro", "stale") and self.p["ops"]["mode_matrix"] > 0 and rng.random() < 0.3:
+                    self.emit(op="allow_write", f=f, inside=True)
                 for _ in range(min(nops, 3)):
                     r = rng.random()
-                    if self.p["ops"]["mode_matrix"] > 0 and r < 0.6:
+                    if self.p["ops"].get("read_twice", 0) >= 1 and kind == "ro" and r < 0.7:
+                        self.emit(op="read_twice", f=f, k=rng.randint(0, 9))
+                    elif self.p["ops"]["mode_matrix"] > 0 and r < 0.6:
                         self.emit_matrix(f)
                     elif r < 0.8:
                         saved = {k: dict(v) for k, v in self.present.items()}
@@ -414,7 +444,7 @@ def gen_run(rng, prop, index, tier):
         "poison": rng.choice(("zero", "x42", "xAA", "ramp", "x42", "xAA")),
         "tz": rng.choice(seams.TZS),
         "epoch": rng.randint(86400 * 800, 2**31 - 86400 * 800),
-        "paths": rng.choice(("str", "Path", "mixed")),
+        "paths": rng.choice(("str", "str", "Path", "mixed", "rel", "tilde")),
     }
     ops = Gen(rng, prof, index, tier, prop).run()
     return cfg, ops
